@@ -5,6 +5,11 @@
 package main
 
 import (
+	"go/types"
+	"sort"
+
+	"golang.org/x/tools/go/packages"
+
 	"encoding/json"
 	"fmt"
 	"go/ast"
@@ -27,6 +32,10 @@ type mutant struct {
 func main() {
 	root := os.Args[1]
 	enc := json.NewEncoder(os.Stdout)
+	if len(os.Args) > 2 && os.Args[2] == "typed" {
+		typed(root, enc)
+		return
+	}
 	filepath.Walk(root, func(path string, info os.FileInfo, err error) error {
 		if err != nil {
 			return nil
@@ -214,4 +223,164 @@ func short(s string) string {
 		s = s[:50] + "…"
 	}
 	return s
+}
+
+// typed lists mutants that need type information: a use of a local variable or parameter replaced by
+// another one of identical type that is in scope ("wrong variable reused"), and a selected field or
+// method replaced by a sibling of identical type (x.Success -> x.Error, PrintHelp -> PrintLongHelp).
+func typed(root string, enc *json.Encoder) {
+	cfg := &packages.Config{Mode: packages.NeedName | packages.NeedFiles | packages.NeedSyntax | packages.NeedTypes | packages.NeedTypesInfo, Dir: root, Tests: false,
+		Env: append(os.Environ(), "GOFLAGS=-mod=mod", "GOPROXY=off", "GOSUMDB=off", "GOTOOLCHAIN=local", "GOWORK=off")}
+	pkgs, err := packages.Load(cfg, "./...")
+	if err != nil {
+		fmt.Fprintln(os.Stderr, err)
+		os.Exit(2)
+	}
+	for _, pk := range pkgs {
+		if strings.HasSuffix(pk.PkgPath, "test") || strings.Contains(pk.PkgPath, "dot") {
+			continue
+		}
+		for _, f := range pk.Syntax {
+			path := pk.Fset.Position(f.Pos()).Filename
+			if strings.HasSuffix(path, "_test.go") || strings.HasSuffix(path, "doc.go") {
+				continue
+			}
+			rel, _ := filepath.Rel(root, path)
+			off := func(p token.Pos) int { return pk.Fset.Position(p).Offset }
+			emit := func(id *ast.Ident, repl, desc string) {
+				enc.Encode(mutant{rel, off(id.Pos()), off(id.End()), repl, desc, pk.Fset.Position(id.Pos()).Line})
+			}
+			// identifiers that are being defined or assigned to are left alone
+			skip := map[*ast.Ident]bool{}
+			ast.Inspect(f, func(n ast.Node) bool {
+				switch x := n.(type) {
+				case *ast.AssignStmt:
+					for _, l := range x.Lhs {
+						if id, ok := l.(*ast.Ident); ok {
+							skip[id] = true
+						}
+					}
+				case *ast.RangeStmt:
+					if id, ok := x.Key.(*ast.Ident); ok {
+						skip[id] = true
+					}
+					if id, ok := x.Value.(*ast.Ident); ok {
+						skip[id] = true
+					}
+				case *ast.IncDecStmt:
+					if id, ok := x.X.(*ast.Ident); ok {
+						skip[id] = true
+					}
+				case *ast.KeyValueExpr:
+					if id, ok := x.Key.(*ast.Ident); ok {
+						skip[id] = true
+					}
+				}
+				return true
+			})
+			for _, d := range f.Decls {
+				fd, ok := d.(*ast.FuncDecl)
+				if !ok || fd.Body == nil {
+					continue
+				}
+				ast.Inspect(fd.Body, func(n ast.Node) bool {
+					switch x := n.(type) {
+					case *ast.SelectorExpr:
+						sel, ok := pk.TypesInfo.Selections[x]
+						if !ok {
+							return true
+						}
+						recv := sel.Recv()
+						if p, isP := recv.(*types.Pointer); isP {
+							recv = p.Elem()
+						}
+						var names []string
+						if st, isS := recv.Underlying().(*types.Struct); isS && sel.Kind() == types.FieldVal {
+							for i := 0; i < st.NumFields(); i++ {
+								fl := st.Field(i)
+								if fl.Name() != x.Sel.Name && types.Identical(fl.Type(), sel.Type()) && (fl.Exported() || fl.Pkg() == pk.Types) {
+									names = append(names, fl.Name())
+								}
+							}
+						}
+						if sel.Kind() == types.MethodVal {
+							ms := types.NewMethodSet(types.NewPointer(recv))
+							for i := 0; i < ms.Len(); i++ {
+								m := ms.At(i).Obj()
+								if m.Name() != x.Sel.Name && types.Identical(m.Type().(*types.Signature).Params(), sel.Type().(*types.Signature).Params()) &&
+									types.Identical(m.Type().(*types.Signature).Results(), sel.Type().(*types.Signature).Results()) && (m.Exported() || m.Pkg() == pk.Types) {
+									names = append(names, m.Name())
+								}
+							}
+						}
+						sort.Strings(names)
+						if len(names) > 3 {
+							names = names[:3]
+						}
+						if !skip[x.Sel] {
+							for _, nm := range names {
+								emit(x.Sel, nm, "selector ."+x.Sel.Name+" -> ."+nm)
+							}
+						}
+					case *ast.Ident:
+						if skip[x] {
+							return true
+						}
+						v, ok := pk.TypesInfo.Uses[x].(*types.Var)
+						if !ok || v.IsField() || v.Pkg() != pk.Types || v.Parent() == pk.Types.Scope() {
+							return true
+						}
+						// candidates: variables visible at this position, declared inside this function
+						var cands []string
+						for sc := pk.Types.Scope().Innermost(x.Pos()); sc != nil && sc != pk.Types.Scope(); sc = sc.Parent() {
+							for _, nm := range sc.Names() {
+								o, isV := sc.Lookup(nm).(*types.Var)
+								if !isV || o == v || nm == "_" || !types.Identical(o.Type(), v.Type()) {
+									continue
+								}
+								if o.Pos() > x.Pos() && sc.Contains(o.Pos()) && o.Parent() != nil && !isParam(fd, pk, o) {
+									continue // declared later in this scope
+								}
+								cands = append(cands, nm)
+							}
+						}
+						sort.Strings(cands)
+						seen := map[string]bool{}
+						n := 0
+						for _, nm := range cands {
+							if seen[nm] || n >= 2 {
+								continue
+							}
+							seen[nm] = true
+							n++
+							emit(x, nm, "variable "+x.Name+" -> "+nm)
+						}
+					}
+					return true
+				})
+			}
+		}
+	}
+}
+
+func isParam(fd *ast.FuncDecl, pk *packages.Package, o *types.Var) bool {
+	if fd.Type.Params != nil {
+		for _, fl := range fd.Type.Params.List {
+			for _, nm := range fl.Names {
+				if pk.TypesInfo.Defs[nm] == o {
+					return true
+				}
+			}
+		}
+	}
+	if fd.Recv != nil {
+		for _, fl := range fd.Recv.List {
+			for _, nm := range fl.Names {
+				if pk.TypesInfo.Defs[nm] == o {
+					return true
+				}
+			}
+		}
+	}
+	return false
 }
